@@ -1,4 +1,4 @@
-(* C01 -- TRANSLATOR TIE, part 2.  gen/Gen_apshape.v is REGENERATED from the current source text of
+(* C01 -- TRANSLATOR TIE, part 2 (aperture shapes).  gen/Gen_apshape.v is REGENERATED from the current source text of
    photutils/aperture/core.py (the loop body of PixelAperture._centered_edges = the edges of ONE aperture
    position), circle.py (_xy_extents), ellipse.py and rectangle.py (_calc_extents) on every run.
    np.cos / np.sin / np.sqrt / math.cos / math.sin are UNINTERPRETED function arguments of the generated
